@@ -206,6 +206,17 @@ def comp_of(rng, n):
     return list(A.rand_comp(rng, n))
 
 
+def with_zero_chunks(rng, chunks, prob=0.1):
+    """Chunkings with a zero-size chunk inside an axis (legal in dask: da.from_array(x, chunks=((2, 0, 1),)))."""
+    chunks = [tuple(c) for c in chunks]
+    if chunks and rng.random() < prob:
+        a = rng.randrange(len(chunks))
+        c = list(chunks[a])
+        c.insert(rng.randint(0, len(c)), 0)
+        chunks[a] = tuple(c)
+    return tuple(chunks)
+
+
 def rand_slice(rng, n):
     pool = [None, None, None] + list(range(-n - 2, n + 3))
     step = rng.choice([None, None, 1, -1, -1, -1, 2, -2, 3, -3, n + 1, -(n + 1), 7, -7])
@@ -698,6 +709,10 @@ def candidates(enc, shape, chunks, fixed_layout=False):
                 out = copy.deepcopy(enc)
                 out[p] = dict(e, v=v, c=[2])
                 yield out, shape, chunks
+    # no zero-size chunks inside an axis
+    for a in range(nd):
+        if shape[a] > 0 and 0 in chunks[a]:
+            yield enc, shape, chunks[:a] + (tuple(c for c in chunks[a] if c),) + chunks[a + 1:]
     # one chunk on an axis
     for a in range(nd):
         if len(chunks[a]) > 1:
@@ -754,7 +769,9 @@ def shrink(enc, shape, chunks, probe, sym, accept=None, budget=500, fixed_layout
 
 def label_features(enc, shape, chunks, layout=True):
     t = "+".join(tokens(enc, shape, chunks if layout else None)) or "full-slices"
-    if layout and any(len(c) > 1 for c in chunks):
+    if layout and any(0 in c and n > 0 for c, n in zip(chunks, shape)):
+        t += "&zero-size-chunk"
+    elif layout and any(len(c) > 1 for c in chunks):
         t += "&split-chunks"
     if layout and 0 in shape:
         t += "&zero-length-axis"
